@@ -265,7 +265,7 @@ impl StateCheck for C15 {
                 }
             }
             let by = p.get("by").cloned().unwrap_or_default();
-            if matches!(by.as_str(), "nepb_el" | "cal_gas" | "cal_biomass" | "nepb_gas") {
+            if text.contains("# BY") {
                 let t2: String = text.lines().filter(|l| !l.contains("# BY")).map(|l| format!("{l}\n")).collect();
                 if let Ok(g2) = fraction(&t2, &fs, 0.0, out) {
                     out.compared += 1;
@@ -302,7 +302,7 @@ fn cv(v: &[f64]) -> Vec<V> {
 }
 
 /// the model is built per demand vector (the supply lines depend on it): one Layered space per demand option
-fn slots(d: &[f64], demand_kind: &'static str) -> Vec<Vec<Letter>> {
+fn slots(d: &[f64], demand_kind: &'static str, rich: bool) -> Vec<Vec<Letter>> {
     let sc = |f: f64| -> Vec<f64> { d.iter().map(|x| x * f).collect() };
     let zero: Vec<f64> = vec![0.0; d.len()];
     // slot 0: demand
@@ -348,7 +348,12 @@ fn slots(d: &[f64], demand_kind: &'static str) -> Vec<Vec<Letter>> {
         m("biomass+joule_noout", vec![u(Some(1), "ACS", "BIOMASA", &cv(&sc(0.625))), u(Some(2), "ACS", "ELECTRICIDAD", &cv(&sc(0.5)))]),
     ];
     // slot 2: PV
-    let pvs: Vec<(&str, Vec<f64>)> = vec![("none", vec![]), ("partial", vec![10.0; d.len()]), ("surplus", vec![500.0; d.len()]), ("one_step", { let mut v = vec![0.0; d.len()]; v[d.len() - 1] = 500.0; v })];
+    let mut pvs: Vec<(&str, Vec<f64>)> = vec![("none", vec![]), ("partial", vec![10.0; d.len()]), ("surplus", vec![500.0; d.len()]), ("one_step", { let mut v = vec![0.0; d.len()]; v[d.len() - 1] = 500.0; v })];
+    if rich {
+        pvs.push(("first_step", { let mut v = vec![0.0; d.len()]; v[0] = 35.0; v }));
+        pvs.push(("tiny", vec![0.5; d.len()]));
+        pvs.push(("ramp", (0..d.len()).map(|i| 25.0 * i as f64).collect()));
+    }
     let slot_pv = pvs
         .into_iter()
         .map(|(n, v)| {
@@ -377,7 +382,7 @@ fn slots(d: &[f64], demand_kind: &'static str) -> Vec<Vec<Letter>> {
         l.extend(ls);
         Letter::many(l)
     };
-    let slot_by = vec![
+    let mut slot_by = vec![
         mk("none", vec![], vec![]),
         mk("nepb_el", vec![com(u(Some(9), "NEPB", "ELECTRICIDAD", &cv(&vec![50.0; d.len()])), "BY")], vec![]),
         mk("nepb_gas", vec![com(u(Some(9), "NEPB", "GASNATURAL", &cv(&vec![50.0; d.len()])), "BY")], vec![]),
@@ -385,19 +390,32 @@ fn slots(d: &[f64], demand_kind: &'static str) -> Vec<Vec<Letter>> {
         mk("cal_biomass", vec![com(u(Some(9), "CAL", "BIOMASA", &cv(&vec![40.0; d.len()])), "BY")], vec![]),
         mk("ilu_el", vec![u(Some(9), "ILU", "ELECTRICIDAD", &cv(&vec![30.0; d.len()]))], vec![30.0; d.len()]),
     ];
+    if rich {
+        // pairs of bystanders (the invariance must hold for their combination too)
+        slot_by.push(mk("nepb_el+cal_gas", vec![com(u(Some(9), "NEPB", "ELECTRICIDAD", &cv(&vec![50.0; d.len()])), "BY"), com(u(Some(8), "CAL", "GASNATURAL", &cv(&sc(0.5))), "BY")], vec![]));
+        slot_by.push(mk("nepb_gas+ilu_el", vec![com(u(Some(9), "NEPB", "GASNATURAL", &cv(&vec![50.0; d.len()])), "BY"), u(Some(8), "ILU", "ELECTRICIDAD", &cv(&vec![30.0; d.len()]))], vec![30.0; d.len()]));
+        slot_by.push(mk("cal_biomass+ilu_el", vec![com(u(Some(9), "CAL", "BIOMASA", &cv(&vec![40.0; d.len()])), "BY"), u(Some(8), "ILU", "ELECTRICIDAD", &cv(&vec![30.0; d.len()]))], vec![30.0; d.len()]));
+        slot_by.push(mk("ref_red1+ven_el", vec![com(u(Some(9), "REF", "RED1", &cv(&vec![40.0; d.len()])), "BY"), u(Some(8), "VEN", "ELECTRICIDAD", &cv(&vec![12.0; d.len()]))], vec![12.0; d.len()]));
+    }
     vec![slot_d, slot_mix, slot_pv, slot_aux, slot_by]
 }
 
 pub fn run(ctx: &Ctx) -> i32 {
     let shared = Shared::new("C15", ctx);
     let mut models: Vec<(&str, Vec<f64>, &'static str)> = vec![("D=(120,120)", vec![120.0, 120.0], "given"), ("D=(60,180)", vec![60.0, 180.0], "given"), ("no demand line", vec![120.0, 120.0], "none"), ("zero demand", vec![120.0, 120.0], "zero")];
-    if !ctx.quick() {
+    {
         models.push(("D=(240) one step", vec![240.0], "given"));
         models.push(("D=(20,40,180) three steps", vec![20.0, 40.0, 180.0], "given"));
         models.push(("D=12 monthly", (0..12).map(|i| 100.0 + 10.0 * i as f64).collect(), "given"));
     }
     for (name, d, kind) in models {
-        explore(ctx, &format!("DHW layered (demand x mix x PV x aux x bystander), {name}"), Layered { slots: slots(&d, kind), bases: alpha::bases(false) }, C15, shared.clone());
+        explore(ctx, &format!("DHW layered (demand x mix x PV x aux x bystander), {name}"), Layered { slots: slots(&d, kind, false), bases: alpha::bases(false) }, C15, shared.clone());
+    }
+    if !ctx.quick() {
+        let more: Vec<(&str, Vec<f64>, &'static str)> = vec![("D=(120,120)", vec![120.0, 120.0], "given"), ("D=(200,0,40) a step without demand", vec![200.0, 0.0, 40.0], "given"), ("D=(20,40,180)", vec![20.0, 40.0, 180.0], "given"), ("D=24 steps", (0..24).map(|i| 10.0 + ((i * 7) % 11) as f64 * 9.0).collect(), "given"), ("no demand line", vec![60.0, 180.0], "none"), ("zero demand", vec![60.0, 180.0], "zero")];
+        for (name, d, kind) in more {
+            explore(ctx, &format!("DHW layered RICH (7 PV shapes, 10 bystander sets), {name}"), Layered { slots: slots(&d, kind, true), bases: alpha::bases(false) }, C15, shared.clone());
+        }
     }
     finish(
         ctx,
